@@ -56,10 +56,10 @@ Lemma occ_box_set_intr u b : occ_box u (set_intr b) = occ_box u b.
 Proof. unfold set_intr. destruct (pol b && negb (intr b)); reflexivity. Qed.
 Lemma occ_box_set_hasi u b v : occ_box u (set_hasi b v) = occ_box u b. Proof. reflexivity. Qed.
 Lemma occ_box_set_poll u b p i : occ_box u (set_poll b p i) = occ_box u b. Proof. reflexivity. Qed.
-Lemma disp_lock_occ u b oi batch b1 : disp_lock b oi = (batch, b1) -> oc u batch + occ_box u b1 = occ_box u b.
+Lemma disp_lock_occ u b oi batch b1 oi' : disp_lock b oi = Some (batch, b1, oi') -> oc u batch + occ_box u b1 = occ_box u b.
 Proof.
-  unfold disp_lock, occ_box. destruct (qi b) eqn:Ei; [destruct oi; [|destruct (qn b) eqn:En]|];
-  intros H; injection H as <- <-; simpl; rewrite ?Ei, ?En; simpl; lia.
+  intros H. destruct (disp_lock_spec _ _ _ _ _ H) as ((ti & tn & -> & Ei & En) & _).
+  unfold occ_box. rewrite Ei, En, oc_app. destruct ti, tn; simpl; lia.
 Qed.
 Lemma occ_cw u th i w : occ_item u (cw_after_load th i w) = 0.
 Proof. unfold cw_after_load. destruct (2 <=? cnt w)%N; auto. destruct ((cnt w =? 1)%N && negb (oidx_is (proc th) i)); auto. Qed.
@@ -102,7 +102,7 @@ Ltac tot_case Ht Htd :=
   use_specs; proj_simpl;
   match goal with |- context [tsum ?u (upd _ _ ?th')] =>
     pose proof (tsum_upd u _ _ _ th' Ht) as E1; rewrite Htd in E1; simpl in E1;
-    repeat match goal with Hd : disp_lock _ _ = _ |- _ => pose proof (disp_lock_occ u _ _ _ _ Hd); clear Hd end
+    repeat match goal with Hd : disp_lock _ _ = _ |- _ => pose proof (disp_lock_occ u _ _ _ _ _ Hd); clear Hd end
   end;
   repeat match goal with
   | Hb : nth_error (boxes _) ?k = Some ?b |- context [bsum ?u (upd _ ?k ?b')] =>
